@@ -223,6 +223,10 @@ def check(prop, tier, seed):
             uncalled = sorted(m for m in methods if m not in called)
             coverage["python_methods"] = len(methods); coverage["python_methods_called"] = len(methods) - len(uncalled)
             coverage["python_uncalled"] = uncalled; coverage["python_lines_compared"] = len(py)
+            kinds_seen = collections.Counter()
+            for pay in impl.values():
+                for m_ in re.finditer(r"(?:parse=err:|variant=)([A-Za-z]+)", pay): kinds_seen[m_.group(1)] += 1
+            coverage["error_kinds_exercised"] = dict(kinds_seen)
             for cid, ln, why in pyfail[:5]:
                 path = write_replay(prop, "python", byid[cid], [], [(ln, [("python", w) for w in why])], py, impl)
                 print("VIOLATION property=%s replay=%s" % (prop, path))
